@@ -295,6 +295,57 @@ struct Accepted {
     truthful: bool,
 }
 
+/// What must hold for any builder output given the attempts it accepted: exactly their
+/// spends, exactly their signatures, within the limit, and (compressed builder) a cost that
+/// is 20 + the declared costs + size * cost_per_byte. Returns the decoded spends, sorted.
+fn output_consistent(
+    generator: &[u8],
+    signature: &Signature,
+    cost: u64,
+    accepted: &[Accepted],
+    k: &ConsensusConstants,
+    interned: bool,
+) -> Result<Vec<[Vec<u8>; 4]>, (&'static str, String)> {
+    let mut want: Vec<[Vec<u8>; 4]> = vec![];
+    for acc in accepted {
+        for b in &acc.bundles {
+            for cs in &b.coin_spends {
+                if let Some(t) = expected_tuple(cs) {
+                    want.push(t);
+                }
+            }
+        }
+    }
+    let mut got = match guard(|| decode_generator(generator)) {
+        Ok(Ok(g)) => g,
+        Ok(Err(e)) => return Err(("generator_malformed", e)),
+        Err(p) => return Err(("generator_malformed", p)),
+    };
+    want.sort();
+    got.sort();
+    if want != got {
+        return Err(("generator_content_mismatch", format!("generator holds {} spends, the accepted attempts hold {}", got.len(), want.len())));
+    }
+    let want_sig = aggregate(accepted.iter().flat_map(|a| a.bundles.iter().map(|b| &b.aggregated_signature)));
+    if &want_sig != signature {
+        return Err(("signature_mismatch", "returned signature is not the aggregate of the accepted bundles' signatures".to_string()));
+    }
+    if cost > k.max_block_cost_clvm {
+        return Err(("cost_above_limit", format!("cost {cost} > max_block_cost_clvm {}", k.max_block_cost_clvm)));
+    }
+    if !interned {
+        let declared: u128 = accepted.iter().map(|a| u128::from(a.declared)).sum();
+        let expect = 20u128 + declared + generator.len() as u128 * u128::from(k.cost_per_byte);
+        if u128::from(cost) != expect {
+            return Err((
+                "cost_not_sum_of_declared_and_bytes",
+                format!("cost {cost} but 20 + declared costs of the accepted attempts + {} bytes * {} = {expect}", generator.len(), k.cost_per_byte),
+            ));
+        }
+    }
+    Ok(got)
+}
+
 pub struct C10;
 
 impl C10 {
@@ -408,21 +459,30 @@ impl C10 {
                             // the accepted-only replica must accept it too
                             match guard(|| r2.add(&built, declared, &k)) {
                                 Ok(Ok((true, _))) => {}
-                                Ok(Ok((false, _)))
-                                    if !case.interned
-                                        && failed_attempts > 0
-                                        && k.max_block_cost_clvm.saturating_sub(r1.cost()) < 64 * k.cost_per_byte =>
-                                {
-                                    // the attempt landed within a few bytes of the limit: the builder that saw
-                                    // rejected attempts serialised it a little smaller (different back-references,
-                                    // the recorded serializer-cache finding) and it just fitted; the other one did not
+                                Ok(Ok((false, _))) if !case.interned && failed_attempts > 0 => {
+                                    // Both builders hold the same accepted attempts and declared costs; if the one
+                                    // that never saw a failed attempt is consistent with them, the only thing that
+                                    // can make it reject what the other accepted is a larger serialisation (different
+                                    // back-references, the recorded serializer-cache finding).
+                                    let slack = k.max_block_cost_clvm.saturating_sub(r1.cost());
+                                    let r2_out = guard(|| r2.finalize(&k));
+                                    let consistent = match &r2_out {
+                                        Ok(Ok((g, sg, cst))) => output_consistent(g, sg, *cst, &accepted, &k, false).is_ok(),
+                                        _ => false,
+                                    };
+                                    if consistent {
+                                        bail!(
+                                            format!("rejected_attempt_changed_serialisation_only:{kind}"),
+                                            step,
+                                            format!(
+                                                "an attempt landing {slack} cost units below the limit was accepted by the builder that saw the failed attempts and rejected by the one that did not (both hold exactly the accepted attempts; their serialised sizes differ)"
+                                            )
+                                        );
+                                    }
                                     bail!(
-                                        format!("rejected_attempt_changed_serialisation_only:{kind}"),
+                                        format!("replica_divergence:accept:{kind}"),
                                         step,
-                                        format!(
-                                            "an attempt landing {} cost units below the limit was accepted by the builder that saw the failed attempts and rejected by the one that did not (serialised sizes differ by a few bytes)",
-                                            k.max_block_cost_clvm.saturating_sub(r1.cost())
-                                        )
+                                        "the builder that saw the failed attempts accepted this one, the one that did not rejected it, and its own output is not consistent with the accepted attempts".to_string()
                                     )
                                 }
                                 Ok(other) => bail!(
@@ -488,40 +548,13 @@ impl C10 {
         let (generator, signature, cost) = f1;
         d.bytes(&generator);
         d.u64(cost);
-        // (3) exactly the accepted spends
-        let mut want: Vec<[Vec<u8>; 4]> = vec![];
-        for acc in &accepted {
-            for b in &acc.bundles {
-                for cs in &b.coin_spends {
-                    if let Some(t) = expected_tuple(cs) {
-                        want.push(t);
-                    }
-                }
-            }
-        }
-        let mut got = match guard(|| decode_generator(&generator)) {
-            Ok(Ok(g)) => g,
-            Ok(Err(e)) => bail!(format!("generator_malformed:{kind}"), step, e),
-            Err(p) => bail!(format!("generator_malformed:{kind}"), step, p),
+        // (3) exactly the accepted spends, (4) exactly their signatures, (5) within the limit,
+        // (5b) compressed builder: cost = 20 + declared costs + bytes * cost_per_byte
+        let got = match output_consistent(&generator, &signature, cost, &accepted, &k, case.interned) {
+            Ok(g) => g,
+            Err((what, detail)) => bail!(format!("{what}:{kind}"), step, detail),
         };
-        want.sort();
-        got.sort();
-        if want != got {
-            bail!(
-                format!("generator_content_mismatch:{kind}"),
-                step,
-                format!("generator holds {} spends, the accepted attempts hold {}", got.len(), want.len())
-            );
-        }
-        // (4) the signature is the aggregate of exactly the accepted signatures
-        let want_sig = aggregate(accepted.iter().flat_map(|a| a.bundles.iter().map(|b| &b.aggregated_signature)));
-        if want_sig != signature {
-            bail!(format!("signature_mismatch:{kind}"), step, "returned signature is not the aggregate of the accepted bundles' signatures".to_string());
-        }
-        // (5) never above the limit
-        if cost > k.max_block_cost_clvm {
-            bail!(format!("cost_above_limit:{kind}"), step, format!("cost {cost} > max_block_cost_clvm {}", k.max_block_cost_clvm));
-        }
+        let want_len = got.len();
         // (6) equals what consensus charges, given truthful declared costs
         let all_truthful = accepted.iter().all(|a| a.truthful);
         if all_truthful {
@@ -547,8 +580,8 @@ impl C10 {
                         );
                     }
                     let want_removal: u128 = accepted.iter().flat_map(|a| a.bundles.iter()).flat_map(|b| b.coin_spends.iter()).map(|cs| u128::from(cs.coin.amount)).sum();
-                    if nspends != want.len() || removal != want_removal {
-                        bail!(format!("conditions_mismatch:{kind}"), step, format!("{nspends} spends / removal {removal}, expected {} / {want_removal}", want.len()));
+                    if nspends != want_len || removal != want_removal {
+                        bail!(format!("conditions_mismatch:{kind}"), step, format!("{nspends} spends / removal {removal}, expected {want_len} / {want_removal}"));
                     }
                     let _ = addition;
                     // the limit is exact: it validates with max_cost = cost
@@ -562,15 +595,11 @@ impl C10 {
         // (2) a rejected attempt leaves the later output unchanged
         if generator != f2.0 || signature != f2.1 || cost != f2.2 {
             let what = if generator != f2.0 { "generator" } else if signature != f2.1 { "signature" } else { "cost" };
-            // same decoded spends and same signature, only the serialisation (choice of
-            // back-references, and with it possibly the length and the byte cost) differs?
-            // ... and the cost differs by exactly the difference in length
-            let len_delta = generator.len() as i128 - f2.0.len() as i128;
-            let cost_delta = i128::from(cost) - i128::from(f2.2);
-            let same_tree = signature == f2.1
-                && cost_delta == len_delta * i128::from(k.cost_per_byte)
-                && len_delta.abs() < 64
-                && guard(|| decode_generator(&f2.0)).ok().and_then(Result::ok).map(|mut g| { g.sort(); g == got }).unwrap_or(false);
+            // both outputs are consistent with the same accepted attempts (same decoded spends,
+            // same signature, each cost = declared costs + its own size): only the serialisation
+            // (choice of back-references, hence possibly length and byte cost) differs
+            let same_tree = !case.interned
+                && matches!(output_consistent(&f2.0, &f2.1, f2.2, &accepted, &k, case.interned), Ok(ref g2) if *g2 == got);
             if same_tree {
                 bail!(
                     format!("rejected_attempt_changed_serialisation_only:{kind}"),
